@@ -54,8 +54,11 @@ def run(index, tier="quick", seed=0) -> Result:
         raise AnalysisError("anchor vanished: Polyhedron._compute_inertia_tensor")
     where = f"{fn.file}:{fn.lineno}"
     found = 0
-    comp_of, disp_probs = component_map(fn.node)
-    for node in ast.walk(fn.node):
+    # (normal form: loops over a constant range are unrolled, small vectors filled element by element become scalar locals)
+    from ..astutil import unroll_constant_loops
+    fnode, _nl = unroll_constant_loops(fn.node)
+    comp_of, disp_probs = component_map(fnode)
+    for node in ast.walk(fnode):
         if isinstance(node, ast.Assign) and isinstance(node.targets[0], ast.Name) and node.targets[0].id in comp_of \
                 and isinstance(node.value, ast.Call) and node.value.args and isinstance(node.value.args[0], ast.Lambda):
             name = comp_of[node.targets[0].id]
@@ -98,7 +101,12 @@ def run(index, tier="quick", seed=0) -> Result:
     r = it.run_entry(gfa, cls)
     rets = {n_.value.id for n_ in ast.walk(gfa.node) if isinstance(n_, ast.Return) and isinstance(n_.value, ast.Name)}
     stores = [e for e in r["events"] if e.type == "local-store" and e.name in rets and e.func is gfa]
-    if not stores:
+    cyc_pad = sorted({d for (v_, _s, _n) in r["returns"] for d in v_.deps if d[0] == "cyclic-pad"})
+    if cyc_pad:
+        res.bad("AREA-1", "Polyhedron.get_face_area:cyclic-padding", f"{gfa.file}:{cyc_pad[0][1].split('@')[-1]}", "Polyhedron.get_face_area computes the areas from "
+                "faces brought to a common length with np.resize, which repeats the vertex cycle from its start: a face that is shorter than the longest one by "
+                "three or more vertices walks its first corners again and their triangles are counted twice")
+    elif not stores:
         res.not_in_fragment.append("AREA-1: stores into the returned array not found")
     else:
         bad_st = [e for e in stores if not any(isinstance(t, tuple) and t == ("getter", "area") for t in e.value.tags)]
